@@ -808,6 +808,9 @@ func runCase(cd caseDef, dir string, seed int64) (out caseOut) {
 			continue
 		}
 		out.Evals++
+		if slowLog {
+			fmt.Fprintf(os.Stderr, "START %d %s %s %s %s %s\n", idx, o.Surface, o.Route, o.Role, jb.pr.Name, o.Expected)
+		}
 		cnt("requests:"+o.Surface, 1)
 		cnt("expected:"+o.Expected, 1)
 
